@@ -15,6 +15,7 @@ Actions (plain and generator handlers):
   ['retnone']                 return None
   ['retlit', v] / ['yieldlit', v]  return / yield the literal v (falsy but non-None values: 0, False, '', 0.0)
   ['stopmgr', code]           self.stop(code)          (C08)
+  ['stopchild', code]         stop(code) of a registered (hence not running) child component   (C08)
   ['sysexit', code]           raise SystemExit(code)   (C08)
   ['kbint']                   raise KeyboardInterrupt  (C08)
   ['cancel', k]               cancel the k-th event this invocation fired (before it is dispatched)
@@ -224,6 +225,16 @@ class World:
         elif k == 'stopmgr':
             self.L('STOPCALL', uid, hid, act[1])
             comp.stop(act[1]) if act[1] is not None else comp.stop()
+        elif k == 'stopchild':
+            # stop() of a registered component: that manager is not running (only the root of a run() is), whatever its root does
+            child = self.probe
+            before = (bool(self.app.running), len(self.app), bool(child.running))
+            raised = None
+            try:
+                child.stop(act[1]) if act[1] is not None else child.stop()
+            except BaseException as e:  # noqa: BLE001
+                raised = repr(e)
+            self.L('CHILDSTOP', uid, hid, act[1], list(before), [bool(self.app.running), len(self.app), bool(child.running)], raised)
         elif k == 'sysexit':
             self.L('SYSEXIT', uid, hid, act[1])
             raise SystemExit(act[1])
